@@ -23,17 +23,22 @@ func c19Subset(pool []string, mask, rotate int) []string {
 	return out
 }
 
-func sameSet(got map[string]bool, want []string, port string) bool {
+func sameSet(got map[string]bool, want []string) bool {
 	if len(got) != len(want) {
 		return false
 	}
 	for _, a := range want {
-		if !got[a+":"+port] {
+		if !got[a] {
 			return false
 		}
 	}
 	return true
 }
+
+// the second host name listens on another port, and a literal address on a third one closes the list
+var c19Ports = []string{"5060", "5070"}
+
+const c19Static = "10.0.9.9:5090"
 
 // VC19_Resolution: every sequence of K resolution outcomes (success with any non-empty subset of
 // three addresses in any rotation, or failure) per host name, delivered with quiescence between
@@ -62,7 +67,10 @@ func VC19_Resolution() {
 		mask := rt.Choice("initial", 8) // 0 = the name does not resolve at start
 		current[h] = c19Subset(pools[h], mask, 0)
 		fakenet.Hosts[n] = current[h]
-		urls = append(urls, proto+"://"+n+":5060")
+		urls = append(urls, proto+"://"+n+":"+c19Ports[h])
+	}
+	if H > 1 {
+		urls = append(urls, proto+"://"+c19Static)
 	}
 	established := 0
 	rr, err := CreateRoundRobinBackend(wListenAddr+":5080", urls, func(conn fakenet.Conn) { established++ })
@@ -80,18 +88,23 @@ func VC19_Resolution() {
 	check := func(when string) {
 		var want []string
 		for h := range names {
-			want = append(want, current[h]...)
+			for _, ip := range current[h] {
+				want = append(want, ip+":"+c19Ports[h])
+			}
+		}
+		if H > 1 {
+			want = append(want, c19Static)
 		}
 		got := map[string]bool{}
 		for k := range rr.GetAllBackend() {
 			got[k] = true
 		}
-		rt.Assert(sameSet(got, want, "5060"), when+": the rotation contains exactly the resolved addresses")
+		rt.Assert(sameSet(got, want), when+": the rotation contains exactly the resolved addresses")
 		idx := map[string]bool{}
 		for k := range p.backends {
 			idx[k] = true
 		}
-		rt.Assert(sameSet(idx, want, "5060"), when+": the proxy recognises exactly those source addresses as its backends")
+		rt.Assert(sameSet(idx, want), when+": the proxy recognises exactly those source addresses as its backends")
 		// dispatching len(want) times reaches each member once
 		if len(want) > 0 && proto == "udp" {
 			before := len(fakenet.Sent)
@@ -102,7 +115,7 @@ func VC19_Resolution() {
 			for _, d := range fakenet.Sent[before:] {
 				seen[d.Remote] = true
 			}
-			rt.Assert(len(fakenet.Sent)-before == len(want) && sameSet(seen, want, "5060"), when+": dispatches reach exactly the members of the rotation")
+			rt.Assert(len(fakenet.Sent)-before == len(want) && sameSet(seen, want), when+": dispatches reach exactly the members of the rotation")
 		}
 		if proto == "udp" {
 			// sockets of removed backends are closed: open sockets = members
